@@ -128,6 +128,9 @@ ASSUMPTIONS = [
     "qualifier); the grid families never contain them",
     "enable_reliability_tracking (constructor flag and public attribute) is part of the input space; it does not change "
     "any criterion: the reliability that scales a weight is whatever the quorum reports",
+    "BAYESIAN: ties are not judged - S6 flags a dominated ballot only when the reported posterior exceeds 0.5 by more "
+    "than 1e-9 (saturation of heavy votes can make a dominated ballot an exact tie, which round-off breaks either way), "
+    "and S4 is not run from a PERMIT whose posterior is within 1e-9 of the threshold",
     "threads family: S1/S2/S3/S5/S6 are judged per call on that call's own ballot (the voters answer per proposal "
     "text); sound because unchanged quorum.py keeps all tallying state in locals (statistics counters and the vote "
     "history are shared but not judged); no reliability feedback and no colony change while votes overlap; S4 is not "
@@ -737,10 +740,20 @@ def judge(k, cfg, cast, res, site, min_voters, unqualified_only=False):
                 bad = f"{len(P)} permits < {max(1, need)} (colony of {n})"
         elif strategy == "bayesian":
             thr = _thr(t, 0.5)
+            # If every permit vote is matched by a block vote of at least its weight*confidence, no aggregator whose
+            # per-vote influence is non-decreasing in weight*confidence (saturation allowed) can put the permit
+            # posterior above 0.5 in exact arithmetic.  Saturation can make such a ballot an exact tie, and float
+            # round-off then lands one ulp either side of 0.5, so only a posterior that is above 0.5 by more than
+            # round-off is a violation; which way an exact tie falls is not demanded.
+            score = res.weighted_score
             if thr >= 0.5 and len(BC) >= len(PC) and PC:
                 ps = sorted((Fraction(v.weight) * Fraction(v.confidence) for v in PC), reverse=True)
                 bs = sorted((Fraction(v.weight) * Fraction(v.confidence) for v in BC), reverse=True)
-                if all(b >= p for p, b in zip(ps, bs)) and sum(bs) > sum(ps) + Fraction(1, 10 ** 9):
+                if all(b >= p for p, b in zip(ps, bs)):
+                    k.probe("bayesian_dominated_ballot")
+                    if isinstance(score, float) and abs(score - 0.5) <= 1e-9:
+                        k.probe("bayesian_tie_within_roundoff")
+                if all(b >= p for p, b in zip(ps, bs)) and isinstance(score, (int, float)) and score > 0.5 + 1e-9:
                     bad = (f"block votes dominate permit votes pairwise (weight*confidence permits {[float(x) for x in ps]} "
                            f"blocks {[float(x) for x in bs]}) yet posterior {res.weighted_score!r} > {thr}")
         if bad:
@@ -1009,7 +1022,13 @@ def run(plan, k):
         judge(k, cur, cast, res, site, cur["min_voters"], unqualified_only=nonfinite)
 
         # ---- S4: metamorphic re-runs on fresh instances built directly for the colony as it is now
-        if ballot is not None and is_permit(res) and not nonfinite:
+        hair = (cur["strategy"] == "bayesian" and isinstance(res.weighted_score, float)
+                and res.weighted_score <= _thr(cur["threshold"], 0.5) + 1e-9)
+        if hair and is_permit(res):
+            # a Bayesian PERMIT carried by float round-off alone (posterior within 1e-9 of the threshold) is a tie in the
+            # aggregator's own terms; monotonicity is not judged from it
+            k.probe("s4_skipped_roundoff_tie")
+        if ballot is not None and is_permit(res) and not nonfinite and not hair:
             rel = [r for _, r in obs]
             base_w = list(gw)
             variants = []
